@@ -118,15 +118,39 @@ func CalcParams(sql string) (count int, offsets []int, sqlItems []string, err er
 	return
 }
 
-func escapeSQL(sql string) string {
+// escapeSQL escapes a value for use inside a single-quoted string literal.
+// With sql_mode NO_BACKSLASH_ESCAPES the backslash is an ordinary character for
+// the server, so the only safe form is to double the quote and leave
+// backslashes alone; otherwise both are escaped with a backslash.
+func escapeSQL(sql string, noBackslashEscapes bool) string {
 	t := make([]byte, 0, len(sql))
 	for _, elem := range []byte(sql) {
-		if elem == '\\' || elem == '\'' {
+		if noBackslashEscapes {
+			if elem == '\'' {
+				t = append(t, '\'')
+			}
+		} else if elem == '\\' || elem == '\'' {
 			t = append(t, '\\')
 		}
 		t = append(t, elem)
 	}
 	return string(t)
+}
+
+// noBackslashEscapes reports whether the session has set a sql_mode that
+// contains NO_BACKSLASH_ESCAPES (the value is synchronised to the backend
+// connection before the statement runs).
+func (se *SessionExecutor) noBackslashEscapes() bool {
+	v, ok := se.sessionVariables.Get(mysql.SQLModeStr)
+	if !ok {
+		return false
+	}
+	variable, ok := v.(*mysql.Variable)
+	if !ok {
+		return false
+	}
+	mode, _ := variable.Get().(string)
+	return strings.Contains(strings.ToUpper(mode), "NO_BACKSLASH_ESCAPES")
 }
 
 // Stmt prepare statement struct
@@ -155,7 +179,7 @@ func (s *Stmt) GetParamTypes() []byte {
 }
 
 // GetRewriteSQL get rewrite sql
-func (s *Stmt) GetRewriteSQL() (string, error) {
+func (s *Stmt) GetRewriteSQL(noBackslashEscapes bool) (string, error) {
 	var buffer bytes.Buffer
 	index := 0
 
@@ -163,7 +187,7 @@ func (s *Stmt) GetRewriteSQL() (string, error) {
 		if s.sqlItems[i] == "?" {
 			quote, tmp := util.ItoString(s.args[index])
 			index++
-			tmp = escapeSQL(tmp)
+			tmp = escapeSQL(tmp, noBackslashEscapes)
 			if quote {
 				tmp = "'" + tmp + "'"
 			}
@@ -240,7 +264,7 @@ func (se *SessionExecutor) handleStmtExecute(reqCtx *util.RequestContext, data [
 			return nil, err
 		}
 
-		executeSQL, err = s.GetRewriteSQL()
+		executeSQL, err = s.GetRewriteSQL(se.noBackslashEscapes())
 		if err != nil {
 			return nil, err
 		}
